@@ -32,7 +32,7 @@ where
             return;
         }
         let Ok(data) = std::fs::read(&f) else { continue };
-        run_case(ctx, rep, "corpus", &Hex(data), |d, i| {
+        run_case(ctx, rep, &format!("corpus:{}", target), &Hex(data), |d, i| {
             i.class(format!("corpus={}", target));
             judge(&d.0, i)
         });
